@@ -55,7 +55,7 @@ type vtxScript struct {
 	Begin []string      `json:"begin"` // per Begin attempt: ok | fail | bad | noconn | f:<error value>
 	Stmts []vtxStmtSpec `json:"stmts"`
 	End   string        `json:"end"` // nil | err | panic | none
-	Ek    string        `json:"ek"`  // err: plain|norows|notfound|canceled|txdone; panic: str|err|rt
+	Ek    string        `json:"ek"`  // err: plain|norows|notfound|canceled|txdone|... (vtxBodyErr); panic: the kind of VALUE (vtxPanicValue)
 	Fin   string        `json:"fin"` // ok | fail | none (does Commit/Rollback succeed)
 	Fk    string        `json:"fk"`  // fin = fail: the error value Commit/Rollback answers with
 	Cx    vtxCx         `json:"cx"`  // the caller's context (TransactCtx only)
@@ -81,6 +81,136 @@ func vtxErrOf(id string) error {
 		return sql.ErrConnDone
 	}
 	return nil
+}
+
+// ---------------------------------------------------------------- what a body may panic with / return
+//
+// Go lets a function panic with a value of any type; recover() hands back that value.  The kinds
+// below are PanicKinds of TxImpl.tla (AllPanicKinds): errors of several identities, texts, and values that
+// are neither (plain data, "falsy" values, typed nil pointers, reference types).
+
+type (
+	vtxCode     int                    // a named integer type without methods
+	vtxAbort    struct{ Reason string } // a struct without methods
+	vtxStringer struct{ n int }
+	vtxPtrErr   struct{ msg string } // *vtxPtrErr implements error; a nil *vtxPtrErr is a non-nil error
+	vtxValErr   struct {             // a caller's own error type (a comparable struct)
+		Code int
+		Msg  string
+	}
+)
+
+func (s vtxStringer) String() string { return fmt.Sprintf("verif-stringer-%d", s.n) }
+
+func (e *vtxPtrErr) Error() string {
+	if e == nil {
+		return "verif-nil-pointer-error"
+	}
+	return e.msg
+}
+
+func (e vtxValErr) Error() string { return fmt.Sprintf("verif-custom-error-%d-%s", e.Code, e.Msg) }
+
+var vtxPanicKinds = []string{"err", "rt", "e:norows", "e:canceled", "e:txdone", "e:bad", "e:wrap", "nilerr", "nil",
+	"str", "empty", "stringer",
+	"int", "zero", "code", "bool", "float", "struct", "ptr", "nilptr", "slice", "map", "func", "chan"}
+
+// vtxPanicValue returns the value a body of call t panics with for a kind ("rt" and "nil" are
+// produced by the body itself: a runtime error cannot be made up, panic(nil) needs the literal).
+func vtxPanicValue(kind string, t int) (v any, known bool) {
+	switch kind {
+	case "err":
+		return fmt.Errorf("verif-panic-t%d", t), true
+	case "rt", "nil":
+		return nil, true
+	case "e:norows":
+		return sql.ErrNoRows, true
+	case "e:canceled":
+		return context.Canceled, true
+	case "e:txdone":
+		return sql.ErrTxDone, true
+	case "e:bad":
+		return driver.ErrBadConn, true
+	case "e:wrap":
+		return fmt.Errorf("verif-panic-t%d: %w", t, sql.ErrNoRows), true
+	case "nilerr":
+		return (*vtxPtrErr)(nil), true
+	case "str":
+		return fmt.Sprintf("verif-panic-t%d", t), true
+	case "empty":
+		return "", true
+	case "stringer":
+		return vtxStringer{t}, true
+	case "int":
+		return 42 + t, true
+	case "zero":
+		return 0, true
+	case "code":
+		return vtxCode(7), true
+	case "bool":
+		return false, true
+	case "float":
+		return 1.5, true
+	case "struct":
+		return vtxAbort{Reason: "validation failed"}, true
+	case "ptr":
+		return &vtxAbort{Reason: "validation failed"}, true
+	case "nilptr":
+		return (*vtxAbort)(nil), true
+	case "slice":
+		return []string{"a", "b"}, true
+	case "map":
+		return map[string]int{"a": 1}, true
+	case "func":
+		return func() {}, true
+	case "chan":
+		return make(chan int), true
+	}
+	return nil, false
+}
+
+// vtxBodyErr returns the error a failing body returns for the kinds that name a particular value
+// (nil: "plain" -- the error of its last failed statement or one of its own).
+func vtxBodyErr(kind string, t int) (e error, known bool) {
+	switch kind {
+	case "", "none", "plain":
+		return nil, true
+	case "bad":
+		return driver.ErrBadConn, true
+	case "deadline":
+		return context.DeadlineExceeded, true
+	case "norows":
+		return sql.ErrNoRows, true
+	case "notfound":
+		return ErrNotFound, true
+	case "canceled":
+		return context.Canceled, true
+	case "txdone":
+		return sql.ErrTxDone, true
+	case "custom": // a struct type of the caller's
+		return vtxValErr{Code: t, Msg: "custom"}, true
+	case "nilerr": // a nil pointer of a type implementing error: err != nil holds
+		return (*vtxPtrErr)(nil), true
+	case "wrap":
+		return fmt.Errorf("verif-body-t%d: %w", t, sql.ErrNoRows), true
+	case "join":
+		return errors.Join(fmt.Errorf("verif-body-t%d", t), io.ErrUnexpectedEOF), true
+	}
+	return nil, false
+}
+
+// vtxCheckScript: a script the harness cannot perform is an infrastructure error (never a verdict)
+func vtxCheckScript(sc vtxScript) {
+	switch sc.End {
+	case "err":
+		if _, ok := vtxBodyErr(sc.Ek, 0); !ok {
+			panic("verif: unknown body error kind " + sc.Ek)
+		}
+	case "panic":
+		if _, ok := vtxPanicValue(sc.Ek, 0); !ok {
+			panic("verif: unknown panic value kind " + sc.Ek)
+		}
+	}
 }
 
 // vtxCtx is the caller's context of one call; the harness ends it at the scripted point.
@@ -475,37 +605,28 @@ func (w *vtxWorld) body(c *vtxCall) func(context.Context, vtxSession) error {
 		}
 		switch c.sc.End {
 		case "err":
-			w.em.Emit(verifEv{"e": "bodyEnd", "t": c.t, "how": "err"})
-			switch c.sc.Ek { // errors the connection's breaker treats as acceptable, and other sentinels
-			case "bad":
-				return c.note("body", driver.ErrBadConn)
-			case "deadline":
-				return c.note("body", context.DeadlineExceeded)
-			case "norows":
-				return c.note("body", sql.ErrNoRows)
-			case "notfound":
-				return c.note("body", ErrNotFound)
-			case "canceled":
-				return c.note("body", context.Canceled)
-			case "txdone":
-				return c.note("body", sql.ErrTxDone)
+			w.em.Emit(verifEv{"e": "bodyEnd", "t": c.t, "how": "err", "v": c.sc.Ek})
+			// errors the connection's breaker treats as acceptable, other sentinels, unusual shapes
+			if e, _ := vtxBodyErr(c.sc.Ek, c.t); e != nil {
+				return c.note("body", e)
 			}
 			if last != nil {
 				return c.note("body", last)
 			}
 			return c.fault("body")
 		case "panic":
-			w.em.Emit(verifEv{"e": "bodyEnd", "t": c.t, "how": "panic"})
+			w.em.Emit(verifEv{"e": "bodyEnd", "t": c.t, "how": "panic", "v": c.sc.Ek})
 			switch c.sc.Ek {
-			case "err":
-				panic(fmt.Errorf("verif-panic-t%d", c.t))
 			case "rt":
 				var m map[int]int
 				m[c.t] = 1 // runtime error: assignment to entry in nil map
+			case "nil":
+				panic(nil) // go.mod says go >= 1.21: recover() returns a *runtime.PanicNilError
 			}
-			panic(fmt.Sprintf("verif-panic-t%d", c.t))
+			v, _ := vtxPanicValue(c.sc.Ek, c.t)
+			panic(v)
 		default:
-			w.em.Emit(verifEv{"e": "bodyEnd", "t": c.t, "how": "nil"})
+			w.em.Emit(verifEv{"e": "bodyEnd", "t": c.t, "how": "nil", "v": "none"})
 			return nil
 		}
 	}
@@ -513,6 +634,7 @@ func (w *vtxWorld) body(c *vtxCall) func(context.Context, vtxSession) error {
 
 // run performs one Transact call and records its result.
 func (w *vtxWorld) run(t int, sc vtxScript, tr vtxTransactor, useCtx bool) {
+	vtxCheckScript(sc)
 	c := &vtxCall{t: t, sc: sc}
 	if w.concurrent {
 		w.beginMu.Lock()
@@ -658,9 +780,10 @@ func vtxRandomScript(rnd interface{ Intn(int) int }, maxStmts int, failBias int)
 	sc.End = []string{"nil", "nil", "err", "panic"}[rnd.Intn(4)]
 	switch sc.End {
 	case "err":
-		sc.Ek = []string{"plain", "plain", "plain", "norows", "notfound", "canceled", "txdone", "bad", "deadline"}[rnd.Intn(9)]
-	case "panic":
-		sc.Ek = []string{"str", "err", "rt"}[rnd.Intn(3)]
+		sc.Ek = []string{"plain", "plain", "plain", "norows", "notfound", "canceled", "txdone", "bad", "deadline",
+			"custom", "nilerr", "wrap", "join"}[rnd.Intn(13)]
+	case "panic": // with a value of any kind
+		sc.Ek = vtxPanicKinds[rnd.Intn(len(vtxPanicKinds))]
 	}
 	sc.Fin = []string{"ok", "ok", "fail"}[rnd.Intn(3)]
 	if sc.Fin == "fail" {
